@@ -278,8 +278,9 @@ func (g *FnGen) processBlock(b *ssa.BasicBlock) {
 				}
 				continue
 			}
+			g.ensureKey(k)
 			if _, ok := g.D.heapSorts[k]; !ok {
-				continue
+				panic(unsupported{"loop writes heap key " + k + " whose sort cannot be reconstructed"})
 			}
 			g.st[k] = g.freshConst("hv", g.D.heapSorts[k])
 		}
@@ -557,16 +558,7 @@ func (g *FnGen) havocKey(k string) {
 	if k == liveKey {
 		return // Live is only extended explicitly
 	}
-	if strings.HasPrefix(k, "G:") {
-		if _, ok := g.S.GhostFields[k[2:]]; ok {
-			g.ensureGhostField(k[2:])
-		}
-	}
-	if strings.HasPrefix(k, "GV:") {
-		if _, ok := g.S.GhostVars[k[3:]]; ok {
-			g.ensureGhostVar(k[3:])
-		}
-	}
+	g.ensureKey(k)
 	if s, ok := g.D.heapSorts[k]; ok {
 		g.st[k] = g.freshConst("hv", s)
 	}
@@ -1440,4 +1432,98 @@ func sortedTypeNames(a map[string][]ownAlloc, b map[string][]Val) []string {
 		m[k] = true
 	}
 	return sortedKeys(m)
+}
+
+// ensureKey registers a heap key (computed by the effect analysis in another declaration context)
+// in this generator's declarations, so that a havoc of it is never silently skipped.
+func (g *FnGen) ensureKey(k string) {
+	if _, ok := g.D.heapSorts[k]; ok {
+		return
+	}
+	typeOf := func(name string) types.Type {
+		if strings.HasPrefix(name, "(_ BitVec") {
+			switch bvWidth(name) {
+			case 8:
+				return types.Typ[types.Uint8]
+			case 16:
+				return types.Typ[types.Uint16]
+			case 32:
+				return types.Typ[types.Uint32]
+			default:
+				return types.Typ[types.Uint64]
+			}
+		}
+		switch name {
+		case sortRef:
+			return types.NewPointer(types.Typ[types.Int])
+		case sortBool:
+			return types.Typ[types.Bool]
+		case sortStr:
+			return types.Typ[types.String]
+		case sortSlice:
+			return types.NewSlice(types.Typ[types.Uint8])
+		case sortFloat:
+			return types.Typ[types.Float64]
+		}
+		return lookupNamedType(g.P, name)
+	}
+	switch {
+	case strings.HasPrefix(k, "G:"):
+		if _, ok := g.S.GhostFields[k[2:]]; ok {
+			g.ensureGhostField(k[2:])
+		}
+	case strings.HasPrefix(k, "GV:"):
+		if _, ok := g.S.GhostVars[k[3:]]; ok {
+			g.ensureGhostVar(k[3:])
+		}
+	case strings.HasPrefix(k, "F:"):
+		i := strings.LastIndex(k, ".")
+		if t := lookupNamedType(g.P, k[2:i]); t != nil {
+			if st, ok := t.Underlying().(*types.Struct); ok {
+				for j := 0; j < st.NumFields(); j++ {
+					if st.Field(j).Name() == k[i+1:] {
+						g.D.fieldKey(t, j)
+					}
+				}
+			}
+		}
+	case strings.HasPrefix(k, "M:"):
+		if t := typeOf(k[2:]); t != nil {
+			g.D.memKeyT(t)
+		}
+	case strings.HasPrefix(k, "C:"):
+		if t := typeOf(k[2:]); t != nil {
+			g.D.cellKeyT(t)
+		}
+	case strings.HasPrefix(k, "MapHas:"), strings.HasPrefix(k, "MapVal:"), strings.HasPrefix(k, "MapLen:"):
+		rest := k[strings.Index(k, ":")+1:]
+		// key and value names are separated by the first ':' that is not inside parentheses
+		depth, cut := 0, -1
+		for i, c := range rest {
+			if c == '(' {
+				depth++
+			} else if c == ')' {
+				depth--
+			} else if c == ':' && depth == 0 {
+				cut = i
+				break
+			}
+		}
+		if cut > 0 {
+			kt, vt := typeOf(rest[:cut]), typeOf(rest[cut+1:])
+			if kt != nil && vt != nil {
+				g.D.mapKeysT(kt, vt)
+			}
+		}
+	case strings.HasPrefix(k, "Glob:"):
+		name := k[5:]
+		for _, sp := range g.P.Prog.AllPackages() {
+			for mn, m := range sp.Members {
+				if gl, ok := m.(*ssa.Global); ok && shortName(gl.String()) == name {
+					_ = mn
+					g.D.globalKey(name, g.D.sortOf(gl.Type().(*types.Pointer).Elem()))
+				}
+			}
+		}
+	}
 }
